@@ -398,12 +398,29 @@ def eval_add(specs):
             m = m.combine(o)
         return m
 
-    for how, mk in (("+", plus), ("MultiSweep", lambda sw: MultiSweep(*sw)), ("combine", comb)):
+    inner = {}
+
+    def plus_right(sw):
+        # right-nested: a + (b + c) - the right operand of the outer + is itself a MultiSweep (and must stay what it was)
+        m = sw[-2] + sw[-1]
+        inner["m"], inner["own"] = m, [canon(c) for c in m.list()]
+        for o in reversed(sw[:-2]):
+            m = o + m
+        return m
+
+    spellings = [("+", plus), ("MultiSweep", lambda sw: MultiSweep(*sw)), ("combine", comb)]
+    if len(specs) >= 3:
+        spellings.append(("+right-nested", plus_right))
+    for how, mk in spellings:
         try:
+            inner.clear()
             sw = [build(s) for s in specs]
             own = [c for s in sw for c in s.list()]
             m = mk(sw)
             got = m.list()
+            if inner and [canon(c) for c in inner["m"].list()] != inner["own"]:
+                viol.append(({"kind": "operand-changed", "op": "add", "how": how, "operand": "inner-multisweep"},
+                             f"{how}: the inner (b + c) of {txt} lists different combinations after it was used as an operand"))
             if [canon(c) for s in sw for c in s.list()] != [canon(c) for c in own]:
                 viol.append(({"kind": "operand-changed", "op": "add", "how": how}, f"{how}: an operand of {txt} lists different combinations afterwards"))
             it = [c for c in m]  # noqa: C416
